@@ -35,6 +35,8 @@ type tcase struct {
 	Pc     string          `json:"pc"`
 	Fields []string        `json:"fields"`
 	Layout []mimegen.Chunk `json:"layout,omitempty"`
+	// layout case only: the arrival paths the specification wants this group's cases run through
+	Arrivals []string `json:"arrivals,omitempty"`
 	Exp    struct {
 		Strong bool  `json:"strong"`
 		Value  []int `json:"value"`
@@ -61,6 +63,143 @@ type drv struct {
 	perPc     map[string]int64
 	bytesRx   int64
 	noPartial map[string]bool
+	// second server for the arrival paths through the recovery mailbox: at most one message per mailbox, so that an
+	// APPEND into the full mailbox "full" is refused and its literal kept in the recovery mailbox
+	srvR       *fixture.ChildServer
+	cR         *wire.Client
+	arrival    string
+	perArrival map[string]int64
+}
+
+const recoveryBox = `"Recovered Messages"`
+
+func (d *drv) connectR() error {
+	if d.cR != nil {
+		d.cR.Close()
+		d.cR = nil
+	}
+	if d.srvR == nil || !d.srvR.Alive() {
+		if d.srvR != nil {
+			d.srvR.Stop()
+		}
+		ns, err := fixture.StartChild(fixture.ChildConfig{MaxMessages: 1})
+		if err != nil {
+			return err
+		}
+		d.srvR = ns
+	}
+	c, err := wire.Dial(d.srvR.Addr)
+	if err != nil {
+		return err
+	}
+	c.Timeout = 60 * time.Second
+	if res := c.Login("user", "pass"); res.Status != "OK" {
+		return fmt.Errorf("login (recovery server): %+v", res)
+	}
+	c.Cmd("CREATE full")
+	c.Cmd("CREATE dst")
+	if res := c.Cmd("STATUS full (MESSAGES)"); !strings.Contains(fmt.Sprint(res.Untagged), "MESSAGES 1") {
+		if res := c.Append("full", "", []byte("From: filler@verif.test\r\nDate: Mon, 7 Feb 1994 21:52:25 -0800\r\nSubject: filler\r\n\r\nfiller\r\n")); res.Status != "OK" {
+			return fmt.Errorf("filler APPEND: %+v", res)
+		}
+	}
+	for _, b := range []string{recoveryBox, "dst"} {
+		if res := c.Cmd("SELECT " + b); res.Status == "OK" {
+			c.Cmd("STORE 1:* +FLAGS.SILENT (\\Deleted)")
+			c.Cmd("EXPUNGE")
+		}
+	}
+	d.cR = c
+	return nil
+}
+
+// arrive puts the message where the arrival path says and selects that mailbox on the connection it returns:
+// the message is message 1 there. ok=false: nothing to examine (refusal already judged or reported).
+func (d *drv) arrive(g *group, arrival string, app []byte) (c *wire.Client, cleanup func(), ok bool, alive bool) {
+	lc := g.layout
+	if arrival == "append" {
+		res := d.c.Append("box", "", app)
+		if res.Closed || res.TimedOut {
+			return nil, nil, false, d.alive(g, nil, "APPEND", res, app)
+		}
+		if res.Status != "OK" {
+			if lc.Exp.Strong {
+				d.violate(g, nil, "append-refused", fmt.Sprintf("APPEND of a well-formed message answered %s %s", res.Status, res.Text), app)
+			} else {
+				d.refused[lc.Shape.Dmg+"/"+lc.Shape.Bnd]++
+			}
+			return nil, nil, false, true
+		}
+		cc := d.c
+		return cc, func() {
+			cc.Cmd("STORE 1:* +FLAGS.SILENT (\\Deleted)")
+			cc.Cmd("EXPUNGE")
+		}, true, true
+	}
+	if d.cR == nil {
+		if err := d.connectR(); err != nil {
+			d.r.Machinery("recovery server: %v", err)
+			return nil, nil, false, false
+		}
+	}
+	c = d.cR
+	lost := func(cmd string, res wire.Result) (*wire.Client, func(), bool, bool) {
+		if d.srvR.WaitExit(500 * time.Millisecond) {
+			d.violate(g, nil, "server-crash", "the server process died while handling "+cmd+"\n"+d.srvR.CrashOutput(), app)
+			d.crashes++
+		} else {
+			d.violate(g, nil, "connection-lost", "the server did not complete "+cmd, app)
+		}
+		if err := d.connectR(); err != nil {
+			d.r.Machinery("recovery server: %v", err)
+			return nil, nil, false, false
+		}
+		return nil, nil, false, d.crashes <= 10
+	}
+	res := c.Append("full", "", app)
+	if res.Closed || res.TimedOut {
+		return lost("APPEND into a full mailbox", res)
+	}
+	if res.Status == "OK" {
+		d.r.Machinery("the APPEND into the full mailbox of the recovery server was accepted: %s", res.Text)
+		return nil, nil, false, false
+	}
+	cleanup = func() {
+		for _, b := range []string{recoveryBox, "dst"} {
+			if res := c.Cmd("SELECT " + b); res.Status == "OK" {
+				c.Cmd("STORE 1:* +FLAGS.SILENT (\\Deleted)")
+				c.Cmd("EXPUNGE")
+			}
+		}
+	}
+	sres := c.Cmd("SELECT " + recoveryBox)
+	if sres.Closed || sres.TimedOut {
+		return lost("SELECT of the recovery mailbox", sres)
+	}
+	if sres.Status != "OK" || !strings.Contains(fmt.Sprint(sres.Untagged), "1 EXISTS") {
+		if lc.Exp.Strong {
+			d.violate(g, nil, "refused-append-not-recovered", fmt.Sprintf("APPEND into a full mailbox answered %s %s; SELECT of the recovery mailbox answered %s %v: the literal is not there as its only message", res.Status, res.Text, sres.Status, sres.Untagged), app)
+		}
+		cleanup()
+		return nil, nil, false, true
+	}
+	if arrival == "movedout" {
+		mres := c.Cmd("MOVE 1 dst")
+		if mres.Closed || mres.TimedOut {
+			return lost("MOVE out of the recovery mailbox", mres)
+		}
+		if mres.Status != "OK" {
+			d.violate(g, nil, "move-out-refused", fmt.Sprintf("MOVE 1 dst out of the recovery mailbox answered %s %s", mres.Status, mres.Text), app)
+			cleanup()
+			return nil, nil, false, true
+		}
+		if s2 := c.Cmd("SELECT dst"); s2.Status != "OK" || !strings.Contains(fmt.Sprint(s2.Untagged), "1 EXISTS") {
+			d.violate(g, nil, "move-out-lost", fmt.Sprintf("after MOVE 1 dst out of the recovery mailbox SELECT dst answered %s %v", s2.Status, s2.Untagged), app)
+			cleanup()
+			return nil, nil, false, true
+		}
+	}
+	return c, cleanup, true, true
 }
 
 func nonDefault(s mimegen.Shape) string { return strings.Join(s.Dims(), ",") }
@@ -75,6 +214,10 @@ func quoteTrim(b []byte, n int) string {
 // violate: groups with the default shape run first; a signature seen there is not reported again under
 // other shapes; a signature that appears only under a non-default shape carries the shape in front.
 func (d *drv) violate(g *group, c *tcase, key, detail string, msg []byte) {
+	if d.arrival != "" && d.arrival != "append" {
+		key = d.arrival + ":" + key
+		detail = "arrival path: " + d.arrival + "\n" + detail
+	}
 	key, report := d.dd.Key(g.layout.Shape.Dims(), key)
 	if !report {
 		return
@@ -188,6 +331,24 @@ func (d *drv) connect() error {
 // alive is called after a command did not complete: it decides between a lost connection and a
 // dead server, reports, and re-establishes the session. false = give up.
 func (d *drv) alive(g *group, c *tcase, cmd string, res wire.Result, msg []byte) bool {
+	if d.arrival != "" && d.arrival != "append" {
+		// the command ran on the recovery server
+		if d.srvR.WaitExit(500 * time.Millisecond) {
+			d.violate(g, c, "server-crash", "the server process died while handling "+cmd+"\n"+d.srvR.CrashOutput(), msg)
+			d.crashes++
+			if d.crashes > 10 {
+				d.r.Machinery("more than 10 server crashes, giving up")
+				return false
+			}
+		} else {
+			d.violate(g, c, "connection-lost", "the server did not complete "+cmd, msg)
+		}
+		if err := d.connectR(); err != nil {
+			d.r.Machinery("cannot reconnect to the recovery server: %v", err)
+			return false
+		}
+		return true
+	}
 	if d.srv.WaitExit(500 * time.Millisecond) {
 		d.violate(g, c, "server-crash", "the server process died while handling "+cmd+"\n"+d.srv.CrashOutput(), msg)
 		d.crashes++
@@ -259,25 +420,42 @@ func slice(v []byte, o, cnt int64) []byte {
 
 // runGroup appends one message and executes its cases. false = stop the run.
 func (d *drv) runGroup(g *group, tag string) bool {
+	arrivals := g.layout.Arrivals
+	if len(arrivals) == 0 {
+		arrivals = []string{"append"}
+	}
+	for _, a := range arrivals {
+		if !d.runGroupVia(g, tag, a) {
+			return false
+		}
+	}
+	return true
+}
+
+func (d *drv) runGroupVia(g *group, tag, arrival string) bool {
 	lc := g.layout
+	if arrival != "append" {
+		tag += arrival // distinct bytes per arrival path: the recovery mailbox keeps a literal once
+	}
 	b := mimegen.Build(lc.Tree, lc.Shape, lc.Layout, tag)
 	app := b.Appended()
 	d.nMsg++
-	res := d.c.Append("box", "", app)
-	if res.Closed || res.TimedOut {
-		return d.alive(g, nil, "APPEND", res, app)
+	d.arrival = arrival
+	defer func() { d.arrival = "" }()
+	conn, cleanup, ok, alive := d.arrive(g, arrival, app)
+	if !ok {
+		return alive
 	}
-	if res.Status != "OK" {
-		if lc.Exp.Strong {
-			d.violate(g, nil, "append-refused", fmt.Sprintf("APPEND of a well-formed message answered %s %s", res.Status, res.Text), app)
-		} else {
-			d.refused[lc.Shape.Dmg+"/"+lc.Shape.Bnd]++
-		}
-		return true
-	}
+	d.perArrival[arrival]++
+	saved := d.c
+	d.c = conn
 	defer func() {
-		d.c.Cmd("STORE 1:* +FLAGS.SILENT (\\Deleted)")
-		d.c.Cmd("EXPUNGE")
+		if arrival == "append" || conn == d.cR {
+			cleanup() // (not on a connection that was replaced meanwhile)
+		}
+		if arrival != "append" {
+			d.c = saved
+		}
 	}()
 	// the whole message, the id line, and the RFC822 family
 	line, fres, ok := d.fetch1("RFC822.SIZE BODY.PEEK[] RFC822 RFC822.HEADER RFC822.TEXT BODY.PEEK[HEADER] BODY.PEEK[TEXT]")
@@ -297,6 +475,10 @@ func (d *drv) runGroup(g *group, tag string) bool {
 	}
 	d.bytesRx += int64(len(whole))
 	p, idline, okIns := findInserted(app, whole)
+	if arrival == "recovered" && bytes.Equal(whole, app) {
+		// a refused literal is kept as handed in: the server adds its id line when a message enters a real mailbox
+		p, idline, okIns = b.Offset(max(b.IDLine, 0)), []byte{}, true
+	}
 	if !okIns {
 		d.violate(g, nil, "body-not-appended-plus-id-line", fmt.Sprintf("BODY[] is not the appended message with exactly one X-Pm-Gluon-Id header line inserted\nBODY[] = %s", quoteTrim(whole, 1500)), app)
 		return true
@@ -503,7 +685,7 @@ func loadGroups(r *ev.Run, tier string) ([]*group, bool) {
 
 func run(r *ev.Run, tier, replay string) {
 	d := &drv{r: r, rnd: rand.New(rand.NewSource(ev.Seed())), dd: mimegen.NewDedup(), alsoPc: map[string]int{},
-		noPartial: map[string]bool{}, refused: map[string]int{}, perKind: map[string]int64{}, perPc: map[string]int64{}}
+		noPartial: map[string]bool{}, refused: map[string]int{}, perKind: map[string]int64{}, perPc: map[string]int64{}, perArrival: map[string]int64{}}
 	var groups []*group
 	if replay != "" {
 		b, err := os.ReadFile(replay)
@@ -547,13 +729,21 @@ func run(r *ev.Run, tier, replay string) {
 		return
 	}
 	defer d.c.Close()
+	defer func() {
+		if d.cR != nil {
+			d.cR.Close()
+		}
+		if d.srvR != nil {
+			d.srvR.Stop()
+		}
+	}()
 	nCases := 0
 	dims := map[string]map[string]int{"hdr": {}, "le": {}, "bnd": {}, "dmg": {}, "size": {}}
 	for i, g := range groups {
 		if !d.runGroup(g, fmt.Sprintf("g%d", i)) {
 			return
 		}
-		nCases += len(g.cases)
+		nCases += len(g.cases) * max(1, len(g.layout.Arrivals))
 		s := g.layout.Shape
 		dims["hdr"][s.Hdr]++
 		dims["le"][s.Le]++
@@ -567,6 +757,7 @@ func run(r *ev.Run, tier, replay string) {
 	}
 	r.Set("traces_validated_against_impl", int64(nCases))
 	r.Set("messages_appended", d.nMsg)
+	r.Set("messages_per_arrival_path", d.perArrival)
 	r.Set("messages_refused_by_append_damaged", d.refused)
 	r.Set("fetches_per_section_kind", d.perKind)
 	r.Set("fetches_per_partial_class", d.perPc)
